@@ -485,6 +485,40 @@ pub fn case_trace(cx: &mut Ctx, spec: &PktSpec, lim: Option<Option<usize>>) {
     }
 }
 
+/// reserve/copy events for a packet built through an API call sequence (cleared options!)
+pub fn case_apitrace(cx: &mut Ctx, ops: &[Op]) {
+    use coap_lite::verif::{take_copy_trace, CopyEvent};
+    let line = format!("PKT apitrace {}", ops.iter().map(|o| o.token()).collect::<Vec<_>>().join(";"));
+    let r = guarded(|| {
+        let mut p = Packet::new();
+        for o in ops {
+            o.apply(&mut p);
+        }
+        let _ = take_copy_trace();
+        let _ = p.to_bytes_unlimited();
+        take_copy_trace()
+    });
+    match r {
+        None => cx.case(&line, "panic"),
+        Some(evs) => {
+            let mut toks = vec![];
+            for e in &evs {
+                match e {
+                    CopyEvent::Reserve { len, additional } => toks.push(format!("R{}+{}", len, additional)),
+                    CopyEvent::Copy { capacity, offset, count } => {
+                        toks.push(format!("C{}+{}", offset, count));
+                        if offset + count > *capacity {
+                            cx.oracle_fail("C04", &line, &format!("raw-pointer copy of {} bytes to offset {} exceeds the vector's capacity {}", count, offset, capacity));
+                        }
+                    }
+                }
+            }
+            cx.case(&line, &toks.join(" "));
+            cx.nontrivial(&line);
+        }
+    }
+}
+
 /// encode unlimited then decode; oracle: C01 round trip
 pub fn case_rt(cx: &mut Ctx, spec: &PktSpec) {
     let line = format!("PKT rt {}", spec.line());
@@ -667,6 +701,7 @@ struct RefMsg {
 }
 
 pub fn case_api(cx: &mut Ctx, ops: &[Op]) {
+    case_apitrace(cx, ops);
     let line = format!("PKT api {}", ops.iter().map(|o| o.token()).collect::<Vec<_>>().join(";"));
     let r = guarded(|| {
         let mut p = Packet::new();
@@ -1005,6 +1040,45 @@ pub fn run(cx: &mut Ctx, _replay: Option<&str>) {
         }
     }
 
+    // ---- 5b. option VALUES with special content (the framing must not care what a value says)
+    {
+        let dict: Vec<Vec<u8>> = vec![
+            b"..".to_vec(), b".".to_vec(), b"...".to_vec(), vec![], vec![0xEF, 0xBB, 0xBF], [vec![0xEF, 0xBB, 0xBF], b"a=1".to_vec()].concat(),
+            b"%2F".to_vec(), b"a%2fb".to_vec(), b"a/b".to_vec(), b"/".to_vec(), vec![0], vec![0xFF], vec![0xFF, 0xFF], b"\r\n".to_vec(),
+            vec![0x0B], "\u{feff}".as_bytes().to_vec(), b"coap://x".to_vec(), vec![0xC3, 0x28], b"..%2F..".to_vec(),
+        ];
+        let nums: [u16; 16] = [1, 3, 4, 6, 8, 11, 12, 14, 15, 17, 20, 23, 27, 35, 39, 60];
+        for &n in &nums {
+            for v in &dict {
+                for second in [None, Some((n, b"x".to_vec())), Some((n + 1, v.clone()))] {
+                    let mut opts = vec![(n, v.clone())];
+                    if let Some(o) = second {
+                        opts.push(o);
+                    }
+                    let spec = PktSpec { vtt: 0x42, code: CodeSpec::Byte(1), mid: 0x1234, tok: vec![7, 8], opts, payload: if n % 2 == 0 { vec![] } else { b"x".to_vec() } };
+                    case_enc(cx, &spec, Some(None));
+                    case_rt(cx, &spec);
+                    let w = rfc_wire(spec.vtt, spec.code.byte(), spec.mid, &spec.tok, &spec.sorted_opts(), &spec.payload);
+                    case_dec(cx, &w);
+                }
+            }
+        }
+    }
+    // ---- 5c. datagrams with very many options (the option count has no boundary in the RFC)
+    {
+        // (the Lean model appends to a list per option, so each of these costs the driver ~15 s:
+        //  one case in the quick tier, the full set in the thorough tier)
+        let counts: Vec<usize> = if thorough { vec![1280, 65535, 65536, 65537, 65540] } else { vec![1280, 65537] };
+        for &n in &counts {
+            let tails: Vec<Vec<u8>> = if thorough || n < 2000 { vec![vec![], vec![0xFF, 0x41], vec![0x0F], vec![0x01], vec![0xF0], vec![0x11, 0x42, 0xFF, 0x43]] } else { vec![vec![0x0F]] };
+            for tail in tails {
+                let mut b = vec![0x40, 1, 0, 9];
+                b.extend(std::iter::repeat(0u8).take(n)); // n empty values of option number 0
+                b.extend(tail);
+                case_dec(cx, &b);
+            }
+        }
+    }
     // ---- 6. random structured messages
     let nrand = if thorough { 60000 } else { 12000 };
     for i in 0..nrand {
